@@ -1075,7 +1075,7 @@ class CompositeEnvelope:
                         os = s.envelope.polarization
                     elif isinstance(s, Polarization):
                         os = s.envelope.fock
-                    if os not in state_list:
+                    if not any(os is x for x in state_list) and not os.measured:
                         state_list.append(os)
 
         # If the state resides in the BaseState or Envelope measure there
